@@ -369,9 +369,94 @@ def runConcSection (r : Report) (s : Section) : Report := Id.run do
         r := r.violation s.idx l.idx s!"data-race-detected races={races} op=[{joinSp l.op}]"
   return r
 
+/-! resolver Build sections (`h=build`): several resolvers on one service key, registry events injected at the
+points of `discovBuilder.Build`:
+  snap <k>:<v>… | build <id> plain | build <id> first|after p:<k>:<v> d:<k>… | close <id> | put … | del … | batch … |
+  reload … | reloadc … | connreload … | cancel | closech
+  => p<id>=<published ids> v<id>=<Values() ids> u<id>=<UpdateState calls> …   (one triple per live resolver) -/
+
+structure BSt where
+  reg   : Map Nat := []
+  live  : List Nat := []
+  built : Bool := false
+
+def runBuildLine (st : BSt) (r : Report) (sec : Nat) (l : Line) : BSt × Report := Id.run do
+  let mut r := r
+  -- the registry events of the line, the resolver that is built / closed
+  let parsed : Option (List Ev × Option Nat × Option Nat) :=
+    match l.op with
+    | "snap" :: ts => if st.built then none else do pure ([.reload (← parsePairs ts) [] []], none, none)
+    | ["build", id, "plain"] => do pure ([], some (← id.toNat?), none)
+    | "build" :: id :: "first" :: ts | "build" :: id :: "after" :: ts => do pure ((← ts.mapM parseBatchTok), some (← id.toNat?), none)
+    | ["close", id] => do pure ([], none, some (← id.toNat?))
+    | ["put", k, v] => do pure ([.put (← k.toNat?) (← v.toNat?)], none, none)
+    | ["del", k] => do pure ([.del (← k.toNat?)], none, none)
+    | "batch" :: ts => do pure ((← ts.mapM parseBatchTok), none, none)
+    | "reload" :: ts | "reloadc" :: ts | "connreload" :: ts => do pure ([.reload (← parsePairs ts) [] []], none, none)
+    | ["cancel"] | ["closech"] => some ([], none, none)
+    | _ => none
+  let some (evs, bld, cls) := parsed | return (st, r.mismatch sec l.idx "bad-op" (joinSp l.op))
+  if (l.op.head? != some "snap") && !st.built && bld.isNone then return (st, r.mismatch sec l.idx "op-before-the-first-build" (joinSp l.op))
+  r := { r with ops := r.ops + 1 }
+  let reg' := evs.foldl Spec.apply st.reg
+  let mut live := st.live
+  match bld with
+  | some id =>
+    if live.contains id then return (st, r.mismatch sec l.idx "resolver-built-twice" (joinSp l.op))
+    r := r.addCover (if st.built then "build-joins-the-existing-watch" else "build-creates-the-watch")
+    r := r.addCover s!"build-{l.op.getD 2 "?"}"
+    if !st.built && !st.reg.isEmpty then r := r.addCover "build-loads-a-nonempty-registry"
+    if l.op.getD 2 "" = "first" then
+      if Spec.viewList reg' ≠ Spec.viewList st.reg then r := r.addCover "event-during-first-publication-changes-the-addresses"
+      else r := r.addCover "event-during-first-publication-keeps-the-addresses"
+    live := live ++ [id]
+    if live.length ≥ 2 then r := r.addCover "several-resolvers-on-one-key"
+  | none => pure ()
+  match cls with
+  | some id =>
+    if !(live.contains id) then return (st, r.mismatch sec l.idx "close-of-an-unknown-resolver" (joinSp l.op))
+    live := live.filter (· ≠ id)
+    r := r.addCover "resolver-closed"
+  | none => pure ()
+  if bld.isNone && cls.isNone then r := r.addCover s!"build-section-{l.op.headD "?"}"
+  let want := Spec.viewList reg'
+  let wantS := showNats want
+  for id in live do
+    let some pS := kv? l.obs s!"p{id}" | r := r.mismatch sec l.idx s!"p{id}=<present>" "absent"
+    let some vS := kv? l.obs s!"v{id}" | r := r.mismatch sec l.idx s!"v{id}=<present>" "absent"
+    let ups := kvStr l.obs s!"u{id}" "?"
+    let some pubL := parseNats (splitComma pS) | r := r.mismatch sec l.idx "bad-pub" pS
+    let some valL := parseNats (splitComma vS) | r := r.mismatch sec l.idx "bad-values" vS
+    -- the subscriber behind the resolver shows the registry
+    if vS ≠ wantS then
+      r := r.violation sec l.idx s!"view-differs-from-registry spec=[{wantS}] impl=[{vS}] excl=false op=[{joinSp l.op}] registry=[{showMapping reg'}] (resolver {id})"
+    -- at quiescence the last UpdateState carries Values(): all of them up to 32, otherwise 32 distinct ones of them
+    let okSubset := pubL.all (valL.contains ·) && (Spec.canonSet pubL).length == pubL.length
+    let okSize := pubL.length == min valL.length subsetSize
+    if valL.length ≤ subsetSize then r := r.addCover "publish-all" else r := r.addCover "publish-32-subset"
+    if !(okSubset && okSize) || (kv? l.obs s!"dup{id}").isSome then
+      r := r.violation sec l.idx s!"resolver-published-differs-from-values-at-quiescence resolver={id} pub=[{pS}] values=[{vS}] registry=[{showMapping reg'}] op=[{joinSp l.op}]"
+    -- Build publishes at least once; an event that changes the addresses is followed by an UpdateState
+    if bld == some id && ups = "0" then
+      r := r.violation sec l.idx s!"build-did-not-publish resolver={id} op=[{joinSp l.op}]"
+    if bld != some id && want ≠ Spec.viewList st.reg && ups = "0" then
+      r := r.violation sec l.idx s!"addresses-changed-without-UpdateState resolver={id} before=[{showNats (Spec.viewList st.reg)}] after=[{wantS}] op=[{joinSp l.op}]"
+  if live.isEmpty && (kv? l.obs "none").isNone then r := r.mismatch sec l.idx "none=1" (joinSp l.obs)
+  return ({ reg := reg', live := live, built := st.built || bld.isSome }, r)
+
+def runBuildSection (r : Report) (s : Section) : Report := Id.run do
+  let mut st : BSt := {}
+  let mut r := r
+  for l in s.lines do
+    let (st', r') := runBuildLine st r s.idx l
+    st := st'
+    r := r'
+  return r
+
 def runSection (r : Report) (s : Section) : Report := Id.run do
   if kvStr s.cfg "h" "" = "kube" then return runKubeSection r s
   if kvStr s.cfg "h" "" = "conc" then return runConcSection r s
+  if kvStr s.cfg "h" "" = "build" then return runBuildSection r s
   let excl := kvNat s.cfg "excl" 0 = 1
   let mut st : St := { excl := excl, cl := { cont := Container.new excl } }
   let mut r := r
